@@ -12,8 +12,8 @@ Binding (spec -> code):
            from REAL objects (DefaultDataManager via its public API, CWLFileToken / ListToken / ObjectToken / Token, Job,
            AvailableLocation) and the real `await token.get_weight()` / `await policy.get_location()` are compared with the
            specified weights and the specified set of acceptable answers;
-  dynamic  a path cover (thorough: every path) of the complete graph of the dynamic configuration is replayed step by
-           step on the real policy with the size I/O parked on gates: after each action the loop is run to quiescence
+  dynamic  a path cover of the complete graph of the dynamic configuration (the graphs are forests: every behaviour) is
+           replayed step by step on the real policy with the size I/O parked on gates: after each action the loop is run to quiescence
            and the I/O in flight, the weights known, returned-or-not and the answer are compared with the model state;
   e2e      instances are driven through the real DefaultScheduler.schedule (fake connectors of the Scheduler harness,
            real data manager): exactly the instance's available locations are free, the job must be allocated inside the
@@ -470,8 +470,9 @@ def run(ctx):
                     "emission incomplete on %s: %d lines, %d states generated, %d initial" % (name, len(trs), r.generated, ninit))
         for an in ("Call", "StatDone", "Env"):
             ctx.require(any(x["a"]["name"] == an for x in trs), "vacuous dynamic model run %s: action %s never taken" % (name, an))
-        # quick: a path cover (every transition at least once); thorough: every path of the small graph as well
-        b = build_paths(trs, ctx.rng("paths:" + name), every_path=(not ctx.quick and name == "dyn"))
+        # a path cover (every transition at least once); the state contains the history `seen`, so the graph is a forest
+        # and the cover is the set of all behaviours
+        b = build_paths(trs, ctx.rng("paths:" + name))
         ctx.count("dyn_instances:%s" % name, ninit)
         ctx.count("dyn_transitions:%s" % name, len(trs))
         ctx.count("dyn_behaviours:%s" % name, len(b))
